@@ -222,7 +222,7 @@ def run_cells_case(ctx, case):
 
 def run(ctx):
     rng = ctx.rng(1)
-    nrep = 60 if ctx.tier == "quick" else 600
+    nrep = 60 if ctx.tier == "quick" else 4000
     for it0 in range(nrep):
         it = it0 + ctx.shard
         if ctx.out_of_time():
